@@ -1,7 +1,7 @@
 (* A concrete netlist reached by editing calls, on which the hypotheses of the enumeration theorems
    hold and the whole queries compute non-trivial results; the former witness of the duplicate yield of
-   get_instances from an instance (repaired) and the computed witness of the refuted statement
-   (get_libraries from an instance, OUTSIDE, recursive). *)
+   get_instances from an instance (repaired) and the former witness of the formerly refuted statement
+   (get_libraries from an instance, OUTSIDE, recursive; repaired). *)
 From Coq Require Import List Arith NArith Bool Lia String Wellfounded.
 From SV Require Import Base.Base IR.State IR.NS IR.Ops Proofs.Inv1a Proofs.Inv2a Proofs.InvW Proofs.NsInv
   Hier.Paths Hier.Enum Hier.Trace Query.Glob Query.Regex Query.Patterns Query.Filter Query.Enum Query.EnumSpec
@@ -82,10 +82,11 @@ Lemma ex_instances_once_collection :
   query_instances ex (opt_name true) 100 [IE 5; IE 14] false true [s2l "a*"] = WOk [10; 11].
 Proof. vm_compute. reflexivity. Qed.
 
-(* ---- witness 2: get_libraries(instance a of leaf inside mid, OUTSIDE, recursive): library W holds
-        top, which instantiates mid, but only L (the library of mid) is returned ---- *)
-Lemma ex_libraries_missing :
-  query_libraries ex (opt_name true) 100 [IE 10] true false [s2l "*"] = WOk [1].
+(* ---- former witness 2 (repaired): get_libraries(instance a of leaf inside mid, OUTSIDE, recursive):
+        library W holds top, which instantiates mid; only L (the library of mid) used to be returned,
+        now W is found as well (regression case) ---- *)
+Lemma ex_libraries_above :
+  query_libraries ex (opt_name true) 100 [IE 10] true false [s2l "*"] = WOk [12; 1].
 Proof. vm_compute. reflexivity. Qed.
 
 (* ---- former witness of finding C13-K3 (repaired): DEFAULT policy, child 10 of mid carries the
@@ -120,7 +121,8 @@ Proof.
   intros s o fuel it rec inside pats res _ _ _ H. exact (query_instances_NoDup s o fuel [it] rec inside pats res H).
 Qed.
 
-(* ---- the statement the faithful model refutes ---- *)
+(* ---- the statement at full strength: every root, selection and recursive setting (it was refuted
+        by the witness above before the repair of get_libraries(instance, OUTSIDE, recursive=True)) ---- *)
 Definition libraries_full : Prop :=
   forall s o fuel it rec inside pats res,
     QWF s -> LookOK s (q_reg o) (q_key o) RLibs -> ~ In [] pats ->
@@ -129,18 +131,9 @@ Definition libraries_full : Prop :=
       (reachA_libraries s it e \/ reachB_libraries s rec inside it e) /\
       sel_match (q_case o) (q_re o) (key_of s (q_key o)) pats e = true /\ q_cb o e = true.
 
-Theorem libraries_full_refuted : ~ libraries_full.
-Proof.
-  intro H. specialize (H ex (opt_name true) 100 (IE 10) true false [s2l "*"] [1] ex_qwf (ex_lookok true RLibs eq_refl)).
-  assert (Hp : ~ In [] [s2l "*"]) by (cbn; intros [E|[]]; discriminate).
-  specialize (H Hp ex_libraries_missing 12). destruct H as [_ H].
-  assert (Hin : In 12 [1]).
-  { apply H. split; [|split; vm_compute; reflexivity]. right. exists 10. split; [reflexivity|].
-    unfold libsB_elem. assert (Hk : kind_of ex 10 = Some KInstance) by (vm_compute; reflexivity). rewrite Hk.
-    exists 5, 13. split; [vm_compute; reflexivity|]. split; [|vm_compute; reflexivity].
-    apply Relation_Operators.rt_step. exists 14. split; vm_compute; reflexivity. }
-  destruct Hin as [E|[]]. discriminate E.
-Qed.
+Theorem libraries_full_holds : libraries_full.
+Proof. intros s o fuel it rec inside pats res W HL Hp H. exact (query_libraries_spec s W o fuel it rec inside pats res HL Hp H). Qed.
+
 
 (* the hypotheses of the enumeration theorems hold on ex, for every key-independent part and for
    the key .NAME with the fast lookup registered or not *)
